@@ -1,6 +1,7 @@
 /- Line-protocol driver: one JSON request per input line, one JSON reply per output line. -/
 import DriverLib.Gens
 import DriverLib.WorldDrv
+import DriverLib.ParseDrv
 open Lean Drv
 
 partial def dispatch (j : Json) : R Json := do
@@ -12,6 +13,7 @@ partial def dispatch (j : Json) : R Json := do
   | "convert" => handleConvert j
   | "gen" => handleGen j
   | "world" => handleWorld j
+  | "parse" => handleParse j
   | k => throw s!"unknown kind {k}"
 
 partial def loop (h : IO.FS.Stream) (out : IO.FS.Stream) : IO Unit := do
